@@ -986,6 +986,7 @@ func (obj *Package) RegisterClass(name string, c Class) {
 	}
 	name = strings.ToLower(name)
 	obj.classes[name] = c
+	classGeneration.Add(1)
 
 	for _, up := range obj.Users {
 		up.RegisterClass(name, c)
